@@ -14,3 +14,19 @@ package types
 
 //@ contract interface ClientKeeper.VerifyNonMembership
 //@   ensures err == nil ==> LCVerifiedNonMembership(clientID, height, delayTimePeriod, delayBlockPeriod, path)
+
+// ---- connection identifiers (C15)
+//@ import strconv strconv
+
+//@ contract FormatConnectionIdentifier
+//@   pure
+//@   ensures result == "connection-" + dec(sequence)
+
+//@ contract ParseConnectionSequence
+//@   pure
+//@   decfull
+//@   let rest = substr(connectionID, 11, len(connectionID) - 11)
+//@   lemma generated_match_format: forall n int :: 0 <= n && n < 18446744073709551616 ==> IsConnectionIDFormat("connection-" + dec(n))
+//@   lemma prefix_occurs_once: forall n int :: 0 <= n ==> !contains(substr("connection-" + dec(n), 1, len("connection-" + dec(n)) - 1), "connection-")
+//@   ensures roundtrip: forall n int :: 0 <= n && n < 18446744073709551616 && connectionID == "connection-" + dec(n) ==> err == nil && result0 == n
+//@   ensures parsed_suffix: err == nil ==> connectionID == "connection-" + rest && nth(strconv.ParseUint(rest, 10, 64), 1) == nil && result0 == nth(strconv.ParseUint(rest, 10, 64), 0)
